@@ -781,7 +781,7 @@ impl Model {
         let e = self.intro.get(&tid).unwrap();
         let pick = self.rand_pick.min(e.registered.len() - 1);
         let r = e.registered[pick];
-        let t = self.fresh_bserial();
+        let t = self.fresh_qserial();
         self.intro.get_mut(&tid).unwrap().queried = Some((r, t));
         self.intro_queries.insert(t, tid);
         self.send(out, r, msg(k::QUERY_INTROSPECTION, vec![v(t), u(tid)]), None);
